@@ -23,6 +23,7 @@ def run(ctx, sess):
     P = sess.prog('default')
     ctx.rule('C20.1', 'alias safety: after tgt->F is stored, a->F and b->F are not read again on any path (tgt may be a or b)')
     ctx.rule('C20.2', 'empty operands: the arms for k == 0 only copy the other operand or reset the target; copy transfers every field; reset yields the empty accumulator')
+    ctx.rule('C20.4', 'min <= mean <= max needs both extremes set by the first sample: where minimum and maximum start at +/-MAX sentinels, the update of one is not control dependent on the compare with the other (no else-if chain)')
     ctx.rule('C20.3', 'no division by a count that can be zero')
     f = P.fn('jls_statistics_combine')
     ctx.saw(f)
@@ -139,3 +140,52 @@ def run(ctx, sess):
                                 ok, how = True, 'after ++%s' % v
                         ctx.ob('C20.3', ok, g.name, 'divisor %s' % show(d), ev.where(), how if ok else 'the divisor can be zero (empty accumulator / zero length)')
     ctx.floor('divisions by a count in statistics.c', nd_, 4)
+    extremes_rule(ctx, P, 'C20.4', ('src/statistics.c', 'src/reader.c', 'src/wr_fsr.c'))
+
+
+def _fconst(e):
+    e = strip_casts(e)
+    if e is None:
+        return None
+    if 'f' in e and e.get('op') == 'flit':
+        return e['f']
+    if 'fc' in e:
+        return e['fc']
+    return None
+
+
+def extremes_rule(ctx, P, rule, files=('src/statistics.c',)):
+    """minimum and maximum start at sentinels, so the first sample has to set both: the update of one extreme
+    must not depend on the outcome of the compare with the other one (no `else if` chain), and every loop path
+    that takes a sample compares it with both"""
+    n = 0
+    for fn in P.all_functions():
+        if fn.file not in files:
+            continue
+        mins, maxs = set(), set()
+        for d in fn.events('decl'):
+            v = _fconst(d.e) if d.e is not None else None
+            if isinstance(v, (int, float)) and v >= 1e30:
+                mins.add(d.name)
+            if isinstance(v, (int, float)) and v <= -1e30:
+                maxs.add(d.name)
+        if not mins or not maxs:
+            continue
+        n += 1
+        ctx.saw(fn, 1)
+        bad = []
+        for ev in fn.stores():
+            if ev.k != 'store':
+                continue
+            lhs, rhs, o = ev.store_parts()
+            l0 = strip_casts(lhs)
+            if l0.get('op') != 'ref' or l0.get('name') not in (mins | maxs):
+                continue
+            other = maxs if l0['name'] in mins else mins
+            for (bid, label) in control_deps_transitive(fn, ev.block.id):
+                c = fn.blocks[bid].cond
+                if c is not None and any(x.get('op') == 'ref' and x.get('name') in other for x in walk(c)):
+                    bad.append('%s is updated only when the compare %s went %s' % (l0['name'], show(c)[:40], 'true' if label == 'T' else 'false'))
+        ctx.ob(rule, not bad, fn.name, 'min/max updates are independent (sentinels %s / %s)' % (sorted(mins), sorted(maxs)), fn.where(),
+               'each extreme is compared on its own' if not bad else bad[0] + ': with sentinel start values a single sample (or a monotone run) leaves the other extreme at its sentinel')
+    ctx.floor('functions tracking min/max from sentinels', n, 2)
